@@ -27,7 +27,7 @@ def dispatch (line : String) : String :=
       else if kind == "stir" then Swim.Drv.Merge.handle prop kind fs else match prop with
       | "C17" => Swim.Drv.C17.handle kind fs
       | "C03" => if kind == "hist" then Swim.Drv.Merge.handle "C06" kind fs else Swim.Drv.C03.handle kind fs
-      | "C04" => if kind == "cluster" then Swim.Drv.Cluster.handleCluster fs else Swim.Drv.Sim.handleC04 kind fs
+      | "C04" => if kind == "aliveport" then Swim.Drv.Msgpack.handleAlivePort fs else if kind == "cluster" then Swim.Drv.Cluster.handleCluster fs else Swim.Drv.Sim.handleC04 kind fs
       | "C05" => if kind == "cursor" then Swim.Drv.C03.handle kind fs else if kind == "cluster" then Swim.Drv.Cluster.handleCluster fs else Swim.Drv.Sim.handleC05 kind fs
       | "C20" => Swim.Drv.Sim.handleC20 kind fs
       | "C09" => Swim.Drv.C09.handle kind fs
